@@ -229,6 +229,8 @@ def scan_global_state(run):
         src = strip_comments(open(path).read())
         cut = src.find("#[cfg(test)]")
         code = src if cut < 0 else src[:cut]
+        # string and char literals say nothing about state (an error message may well contain the word "static")
+        code = re.sub(r'"(?:\\.|[^"\\])*"', lambda m: '"' + " " * (len(m.group(0)) - 2) + '"' if "\n" not in m.group(0) else m.group(0), code)
         files += 1
         for rx, what in GLOBAL_STATE:
             for m in re.finditer(rx, code):
